@@ -415,4 +415,18 @@ class Runner:
             if x.tobytes() != y.tobytes():
                 res.fail("C18", "roundtrip_behaviour", f"behaviour_differs:{k}", path=op["path"])
                 return
+        # once more WITHOUT jit, on the objects exactly as constructed / as returned by the loader: passing a policy through jit
+        # re-builds its pytree (e.g. re-orders the sub-spaces of a Dict space) and would hide a difference in static structure
+        one = jax.tree.map(lambda x: x[:1], obs)
+        e1 = jax.device_get(self._behaviour(expected, one, jr.key(plan["obs_key"] + 2)))
+        e2 = jax.device_get(self._behaviour(loaded, one, jr.key(plan["obs_key"] + 2)))
+        for k in e1:
+            x, y = np.asarray(e1[k]), np.asarray(e2[k])
+            if x.dtype.kind == "f":
+                same = x.shape == y.shape and np.allclose(x, y, rtol=1e-5, atol=1e-6, equal_nan=True)   # eager vs eager: same ops, but be lenient about fusion
+            else:
+                same = x.tobytes() == y.tobytes()
+            if not same:
+                res.fail("C18", "roundtrip_behaviour", f"eager_behaviour_differs:{k}", path=op["path"])
+                return
         res.ok("C18", "roundtrip_behaviour")
